@@ -253,6 +253,11 @@ def object_level(cls: str, twin: bool = False, real: bool = False):
                 cb = W.env.coinbase(hh, [dt.Output(1, W.keys[3])], tok(TX, 20))
                 blkx = W.env.block(hh, W.P.hash(), [cb], tok(BLK, 73), ts=3000, merkle=W.ref_merkle([cb.hash()]))
                 msg = ms.DataMessage(ms.DATA_BLOCK, blkx)
+                if k >= 3:
+                    # history: after a peer's block had been validated, the node itself published a newer state the way the
+                    # miner and the start-up code do (set_coinstate with its default arguments)
+                    own = W.candidate(cm.coinstate, [W.env.coinbase(W.h, [dt.Output(1, W.keys[3])], tok(TX, 22))], 3000, bid=tok(BLK, 74))
+                    cm.set_coinstate(cm.coinstate.add_block(own, 3000))
             elif cls == "over-limit-inventory":
                 msg = ms.InventoryMessage([ms.InventoryItem(ms.DATA_BLOCK, tok(BLK, 80)) for _ in range(501 + n)])
             else:
